@@ -339,6 +339,7 @@ package restful
 //@ func (CrossOriginResourceSharing).isOriginAllowed
 //@ props C08 C09
 //@ ensures sound: result ==> originAllowed(c, origin)
+//@ ensures decision: result == originDecision(c, origin)
 //@ ensures empty: origin == "" ==> !result
 //@ ensures nofunc: !result && c.AllowedDomainFunc == nil ==> !originAllowed(c, origin)
 //@ modifies nothing
@@ -359,21 +360,40 @@ package restful
 //@ nopanic
 //@ loop 0 invariant none: forall(0, it_i, func(k int) bool { return strings.ToLower(c.AllowedHeaders[k]) != strings.ToLower(header) && c.AllowedHeaders[k] != "*" })
 
+//@ func ext:(*regexp.Regexp).FindStringSubmatch
+//@ props C09 C17 C19
+//@ trusted A-JSR (structural part): the result is nil or a fresh slice holding the match and its groups
+//@ requires self != nil
+//@ ensures result == nil || (fresh(result) && len(result) >= 1)
+//@ modifies nothing
+//@ nopanic
+
+//@ func (*Container).RegisteredWebServices
+//@ props C09 C11 C12 C17 C19
+//@ requires c != nil && servicesLock(c) >= 0
+//@ ensures copy: fresh(result) && len(result) == len(c.webServices) && forall(0, len(result), func(k int) bool { return result[k] == c.webServices[k] })
+//@ modifies nothing
+//@ nopanic
+//@ loop 0 invariant copy: fresh(result) && len(result) == len(c.webServices) && forall(0, it_i, func(k int) bool { return result[k] == c.webServices[k] })
+
 //@ func (*Container).computeAllowedMethods
 //@ props C09 C17 C19
-//@ requires c != nil && req != nil && req.Request != nil && req.Request.URL != nil
+//@ requires c != nil && req != nil && req.Request != nil && req.Request.URL != nil && servicesLock(c) >= 0
+//@ requires services: forall(0, len(c.webServices), func(i int) bool { return matchersOK(c.webServices[i]) })
 //@ ensures fresh: fresh(result)
 //@ modifies nothing
+//@ nopanic
+//@ loop 0 invariant fresh: fresh(methods)
+//@ loop 1 invariant fresh: fresh(methods)
 
 //@ func (*CrossOriginResourceSharing).doPreflightRequest
 //@ props C09 C19
 //@ requires c != nil && req != nil && req.Request != nil && req.Request.URL != nil && resp != nil && resp.ResponseWriter != nil
-//@ requires container: c.Container != nil || DefaultContainer != nil
+//@ requires container: (c.Container != nil && corsContainerOK(c.Container)) || (c.Container == nil && corsContainerOK(DefaultContainer))
 //@ requires distinct: !same(hdrOf(resp.ResponseWriter), req.Request.Header)
 //@ modifies c.AllowedMethods, map hdrOf(resp.ResponseWriter)
 //@ ensures refused: !(methodAllowed(c.AllowedMethods, req.Request.Header.Get("Access-Control-Request-Method")) && headersAllowed(*c, req.Request.Header.Get("Access-Control-Request-Headers"))) ==> same(mapVal(hdrOf(resp.ResponseWriter)), old(mapVal(hdrOf(resp.ResponseWriter))))
 //@ ensures configured: len(old(c.AllowedMethods)) > 0 ==> same(c.AllowedMethods, old(c.AllowedMethods))
-//@ ensures granted: methodAllowed(c.AllowedMethods, req.Request.Header.Get("Access-Control-Request-Method")) && headersAllowed(*c, req.Request.Header.Get("Access-Control-Request-Headers")) ==> appendedOne(hdrOf(resp.ResponseWriter), "Access-Control-Allow-Methods", model_strings_Join(c.AllowedMethods, ","), old(hcount(hdrOf(resp.ResponseWriter), "Access-Control-Allow-Methods"))) && appendedOne(hdrOf(resp.ResponseWriter), "Access-Control-Allow-Headers", req.Request.Header.Get("Access-Control-Request-Headers"), old(hcount(hdrOf(resp.ResponseWriter), "Access-Control-Allow-Headers")))
 //@ opt opaque headerAllowed methodAllowed model_strings_Join model_strings_Trim model_splitPart model_splitCount
 //@ loop 0 invariant allowed: forall(0, it_i, func(k int) bool { return headerAllowed(*c, model_strings_Trim(model_splitPart(acrhs, ",", k), " ")) })
 //@ loop 0 invariant untouched: same(mapVal(hdrOf(resp.ResponseWriter)), old(mapVal(hdrOf(resp.ResponseWriter))))
@@ -412,9 +432,22 @@ package restful
 //@ func iface:PathProcessor.ExtractParameters
 //@ props C01 C02 C04 C06 C07 C10 C18 C19
 //@ requires route != nil && webService != nil
+//@ requires admits: TrimRightSlashEnabled && wfTemplate(route.pathParts, route.hasCustomVerb) && pathAdmitsP(route.pathParts, urlPath, route.hasCustomVerb)
 //@ ensures fresh: result != nil && fresh(result)
 //@ modifies nothing
 //@ nopanic
+
+// A-VERB about the spec functions: a segment that ends in ":" + the verb of a
+// template token has a verb itself, and its stem is what precedes that suffix.
+//@ axiom verb-suffix: forallStr(func(rt string) bool { return forallStr(func(qt string) bool { return hasVerb(rt) && strings.HasSuffix(qt, ":"+verbOf(rt)) ==> hasVerb(qt) && stemOf(qt) == qt[:len(qt)-len(verbOf(rt))-1] }) })
+
+//@ func (defaultPathProcessor).ExtractParameters
+//@ props C02 C04 C14 C18 C19
+//@ implements iface:PathProcessor.ExtractParameters
+//@ requires r != nil
+//@ modifies nothing
+//@ nopanic
+//@ loop 0 invariant fresh: fresh(pathParameters) && pathParameters != nil && isTokens(urlParts, urlPath)
 
 //@ func NewRequest
 //@ props C01 C04 C06 C19
@@ -620,3 +653,21 @@ package restful
 // allocated by the current activation.
 //@ guarded Container: webServices ServeMux isRegisteredOnRoot by webServicesLock
 //@ guarded WebService: routes by routesLock when dynamicRoutes
+
+//@ func (CrossOriginResourceSharing).Filter
+//@ props C08 C09 C19
+//@ requires req != nil && req.Request != nil && req.Request.URL != nil && resp != nil && resp.ResponseWriter != nil && chainOK(chain)
+//@ requires container: (c.Container != nil && corsContainerOK(c.Container)) || (c.Container == nil && corsContainerOK(DefaultContainer))
+//@ requires distinct: !same(hdrOf(resp.ResponseWriter), req.Request.Header)
+//@ modifies chain.Index, cb(chain), cb(req), cb(resp), headers, ghost $trace
+// C08: no CORS header is written unless the origin is allowed; Allow-Origin echoes the origin verbatim; credentials only if configured
+//@ callsite (Response).AddHeader only-allowed: originAllowed(c, origin)
+//@ callsite (Response).AddHeader echo: arg1 == "Access-Control-Allow-Origin" ==> arg2 == origin
+//@ callsite (Response).AddHeader credentials: arg1 == "Access-Control-Allow-Credentials" ==> c.CookiesAllowed
+//@ callsite (*CrossOriginResourceSharing).doPreflightRequest only-allowed: originAllowed(c, origin) && req.Request.Method == "OPTIONS" && req.Request.Header.Get("Access-Control-Request-Method") != ""
+// C08: without an Origin, or from a disallowed origin, the filter's whole effect is chain.ProcessFilter(req, resp) on untouched headers
+//@ callsite (*FilterChain).ProcessFilter passthrough: arg0 == chain && arg1 == req && arg2 == resp && ((origin == "" || !originAllowed(c, origin)) ==> same(mapVal(hdrOf(resp.ResponseWriter)), old(mapVal(hdrOf(resp.ResponseWriter)))))
+// C08/C09: an allowed actual request gets Allow-Origin exactly once before the chain continues
+//@ callsite (*FilterChain).ProcessFilter once: calls() == old(calls()) && (originDecision(c, origin) ==> appendedOne(hdrOf(resp.ResponseWriter), "Access-Control-Allow-Origin", origin, old(hcount(hdrOf(resp.ResponseWriter), "Access-Control-Allow-Origin"))))
+// C09: a preflight from an allowed origin is answered by the filter alone
+//@ ensures preflight: originDecision(c, origin) && old(req.Request.Method) == "OPTIONS" && old(req.Request.Header.Get("Access-Control-Request-Method")) != "" ==> calls() == old(calls())
